@@ -504,6 +504,15 @@ def run(ctx):
     if len(obs) < 1 and not info.get("unsupported"):
         ctx.checker_errors.append(f"no obligation generated for the port loop of {key}")
     ctx.discharge(obs, key + " [port loop body: one declared signal of the port's name and width, one port naming it]", info)
+    key, obs, info = c_extmod.module_loop_obligations()
+    for u in info.get("unsupported", []):
+        ctx.unsupported.append((key, u))
+    if len(obs) < 6 and not info.get("unsupported"):
+        ctx.checker_errors.append(f"only {len(obs)} obligations for the loops of {key}")
+    ctx.discharge(obs, key + " [signal / port / instance loops: iterate over all; one record per element, appended last]", info)
+    ctx.assumptions.append("export_module: its three loops are proved per iteration, and their iteration sources are "
+                           "compared as source text; export_instance's frame (never the lists of the record under "
+                           "construction) is assumed; the memo / name tables are decided by the bounded part")
     ctx.assumptions.append("export_external_module: the port loop is proved per iteration (one arbitrary port, arbitrary "
                            "earlier entries); the induction over port_list and protobuf's repeated-field append are assumed")
     from props.c01 import concat_designs
